@@ -1180,12 +1180,53 @@ Proof.
   lia.
 Qed.
 
+(* ... and when no body call carries more than one buffer: three output buffers on top of max(limit, 2048 x message_len) *)
+Corollary dz_C07_bomb_bound_small_blocks :
+  forall (OT : Type) (ask : OT -> dz_query -> dz_ans * OT) (c : dz_cfg) ce calls (o : OT),
+    dz_calls_ok 8192 calls ->
+    dc_bomb c <= (c_HTP_COMPRESSION_BOMB_RATIO - 1) * c_GZIP_BUF_SIZE ->
+    let w := tx_w OT (fst (dz_run OT ask c ce calls o)) in
+    dz_delivered_bytes w <= Z.max (dc_bomb c) (2048 * w_message OT w) + 3 * c_GZIP_BUF_SIZE.
+Proof.
+  intros OT ask c ce calls o Hcalls Hlim w.
+  assert (H0 : 0 <= 8192) by lia.
+  pose proof (dz_C07_bomb_bound_small_limit OT ask c 8192 ce calls o H0 Hcalls Hlim) as H. cbv zeta in H. fold w in H.
+  rewrite dz_buf_size. lia.
+Qed.
+
 Theorem dz_C07_layers_bounded :
   forall (OT : Type) (ask : OT -> dz_query -> dz_ans * OT) (c : dz_cfg) ce (w : dz_world OT),
     let t := dz_response_headers OT ask c ce w in
     (0 < dc_layers c -> Z.of_nat (length (tx_chain OT t)) <= dc_layers c) /\
     dz_nlzma (tx_chain OT t) <= Z.max 0 (dc_lzma_layers c).
 Proof. intros. apply dz_layers_bounded. Qed.
+
+(* the heart of the bound: the callback only answers HTP_OK from a state within the bound ... *)
+Theorem dz_C07_accepted_means_within_bound :
+  forall (OT : Type) (c : dz_cfg) d (w w' : dz_world OT),
+    dz_callback OT c d w = (w', c_HTP_OK) ->
+    w_entity OT w' <= Z.max (dc_bomb c) (c_HTP_COMPRESSION_BOMB_RATIO * w_message OT w').
+Proof. intros OT c d w w' H. apply dz_callback_spec in H. destruct H as (_ & _ & H). apply H. reflexivity. Qed.
+
+(* ... and a decompress call that starts within the bound goes over it by at most ONE block (output buffer or the chunk itself),
+   for any chain depth and any external behaviour; it reports HTP_OK only from a state within the bound *)
+Theorem dz_C07_one_block_over :
+  forall (OT : Type) (ask : OT -> dz_query -> dz_ans * OT) (c : dz_cfg) n ls d (w : dz_world OT) ls' w' r,
+    dz_decompress OT ask c n ls d w = (ls', w', r) ->
+    Forall dz_wf ls -> dz_clean OT c w ->
+    w_entity OT w' <= dz_M OT c w + Z.max (Z.of_nat dz_BUF) (dz_len d) /\ w_message OT w' = w_message OT w /\ (r = c_HTP_OK -> dz_clean OT c w').
+Proof.
+  intros OT ask c n ls d w ls' w' r H Hwf Hc.
+  assert (Htriv : w_entity OT w <= dz_M OT c w + Z.max (Z.of_nat dz_BUF) (dz_len d) /\ w_message OT w = w_message OT w /\ (c_HTP_ERROR = c_HTP_OK -> dz_clean OT c w)).
+  { unfold dz_clean in Hc. pose proof (dz_len_nonneg d). split; [lia|]. split; auto. }
+  destruct n as [|n]; cbn [dz_decompress] in H.
+  - inversion H; subst. exact Htriv.
+  - destruct ls as [|l rest].
+    + inversion H; subst. exact Htriv.
+    + inversion Hwf; subst.
+      eapply (dz_layer_run_spec OT ask c _ (dz_decompress_next_ok OT ask c n) (Z.max (Z.of_nat dz_BUF) (dz_len d))) in H; eauto; try lia.
+      destruct H as (Hm & _ & _ & Hb & Hok & _). split; auto.
+Qed.
 
 (* ------------------------------------------------------------------ Part 3: the wrapper is faithful (single layer, no restart) *)
 
